@@ -92,6 +92,12 @@ func checkJSONValue(o *Out, p *Package, u *refwire.Universe, t reflect.Type, v r
 			}
 		}
 	}
+	// C03 looks at every document Go produced with the generated wrappers, whether or not it
+	// can be read back (the round trip is C02's business)
+	if emitDocs && !seenDocs[string(doc)] && json.Valid(doc) {
+		seenDocs[string(doc)] = true
+		o.Emit(Event{Prog: p.ID, Kind: "doc", Type: t.Name(), Doc: json.RawMessage(doc)})
+	}
 	// round trip
 	fresh := reflect.New(t)
 	if pan := Guard(func() { err = json.Unmarshal(doc, fresh.Interface()) }); pan != "" {
@@ -108,10 +114,6 @@ func checkJSONValue(o *Out, p *Package, u *refwire.Universe, t reflect.Type, v r
 	}
 	if reaches {
 		o.Distinct(p.ID + "|" + t.Name() + "|" + hash(doc))
-	}
-	if emitDocs && !seenDocs[string(doc)] {
-		seenDocs[string(doc)] = true
-		o.Emit(Event{Prog: p.ID, Kind: "doc", Type: t.Name(), Doc: json.RawMessage(doc)})
 	}
 	return doc, true
 }
